@@ -351,6 +351,8 @@ type expectation struct {
 	Casbin  bool
 }
 
+var invalidTurn int
+
 func (c acase) authenticate() (bool, string) {
 	switch {
 	case c.Accounts == "off":
@@ -901,6 +903,18 @@ var scenarios = []scenario{
 	{"malformed", func(s *methodSpec) acase {
 		return acase{Accounts: "basic+casbin", Cred: "malformed", User: "bob", Graph: "g1", Rules: []rule{{"bob", "*", "*"}}}
 	}},
+	{"invalid-basic", func(s *methodSpec) acase {
+		// every further credential that must not validate, one per method in turn; the
+		// policy grants everything to everybody the header could name
+		k := invalidBasic[invalidTurn%len(invalidBasic)]
+		invalidTurn++
+		return acase{Accounts: "basic+casbin", Cred: k, User: "bob", Graph: "g1", Rules: []rule{{"bob", "*", "*"}, {"root", "*", "*"}, {"mallory", "*", "*"}, {"", "*", "*"}, {"Bob", "*", "*"}}}
+	}},
+	{"invalid-basic/basic-only", func(s *methodSpec) acase {
+		k := invalidBasic[invalidTurn%len(invalidBasic)]
+		invalidTurn++
+		return acase{Accounts: "basic", Cred: k, User: "alice", Graph: "g2"}
+	}},
 	{"basic-only/valid", func(s *methodSpec) acase { return acase{Accounts: "basic", Cred: "valid", User: "alice", Graph: "g2"} }},
 	{"basic-only/wrongpw", func(s *methodSpec) acase { return acase{Accounts: "basic", Cred: "wrongpw", User: "alice", Graph: "g2"} }},
 	{"proxy/exact", func(s *methodSpec) acase {
@@ -995,7 +1009,7 @@ func genCase(rt *rapid.T) acase {
 	c := acase{Method: spec.Full}
 	c.Transport = rapid.SampledFrom(transports).Draw(rt, "transport")
 	c.Accounts = rapid.SampledFrom([]string{"off", "basic", "basic+casbin", "basic+casbin", "basic+casbin", "basic+casbin", "basic+casbin", "basic+casbin", "proxy+casbin", "proxy+casbin"}).Draw(rt, "accounts")
-	c.Cred = rapid.SampledFrom([]string{"valid", "valid", "valid", "valid", "valid", "valid", "valid", "wrongpw", "unknown", "noheader", "malformed"}).Draw(rt, "cred")
+	c.Cred = rapid.SampledFrom(append([]string{"valid", "valid", "valid", "valid", "valid", "valid", "valid", "valid", "valid", "valid", "valid", "valid", "wrongpw", "unknown", "noheader", "malformed"}, invalidBasic...)).Draw(rt, "cred")
 	c.User = rapid.SampledFrom([]string{"alice", "alice", "alice", "bob", "bob", "bob", "root"}).Draw(rt, "user")
 	c.Graph = rapid.SampledFrom(graphs).Draw(rt, "graph")
 	if spec.Kind == cstream {
